@@ -12,8 +12,8 @@ def random_program(rng, nd=3, ng=3):
     for g in range(ng):
         n = rng.randint(1, 6)
         b = [rng.choice(BODY_STEPS if g < ng - 1 else BODY_STEPS[:-1]) for _ in range(n)]
-        if not any(s in ("yield", "ycatch") for s in b):
-            b.insert(rng.randint(0, len(b)), "yield")
+        if not any(s in ("yield", "ycatch") for s in b) and rng.random() < 0.7:
+            b.insert(rng.randint(0, len(b)), "yield")          # (some bodies return before their first yield)
         bodies.append(b)
     gst = {g: "none" for g in range(1, ng + 1)}
     depth = {d: 0 for d in range(1, nd + 1)}
